@@ -325,6 +325,8 @@ func NewWorld(seed uint64, cfg Config) *World {
 func (w *World) startNode(i int) error {
 	n := w.Nodes[i]
 	n.Gen++
+	delete(w.nstates, i) // a restarted node starts from nothing (all state is in memory): the oracles' memory of it too
+	delete(w.truncFailed, i)
 	n.ctx, n.cancel = context.WithCancel(w.ctx)
 	n.Log = &recLogger{node: n.URL, keep: w.Cfg.KeepLogs}
 	me := simrt.Me()
